@@ -139,6 +139,19 @@ func runR021(c *Ctx) {
 			bad, badPos = m, p
 		}
 	}
+	// the state file's own name is only ever the target of the rename: removing, truncating or
+	// re-creating it first leaves a window without any state file
+	allInstrs(fn, func(ins ssa.Instruction) {
+		cl, ok := ins.(*ssa.Call)
+		if !ok || !cl.Call.IsInvoke() || !isDir(cl.Call.Value) {
+			return
+		}
+		for i, a := range cl.Call.Args {
+			if isGlobal(a, "componentState") && !(cl.Call.Method.Name() == "Rename" && i == 2) {
+				setBad("the state file's own name is handed to "+cl.Call.Method.Name()+"(): replacing the state file is atomic only if that name is never touched except as the target of the final rename (a crash or an I/O error after this call leaves no state file at all, and the store restarts empty)", cl.Pos())
+			}
+		}
+	})
 	// state: done steps d (0..7) encoded as d, pending step p encoded as 10+p, failed = 100
 	var pendingCall *ssa.Call
 	nSuccess := 0
